@@ -28,7 +28,7 @@ LEVEL_NOTE = ("Tolerance 1e-6 relative to the largest contributing node (float32
 RULE = ("case = one world x 3 subgrids x 2000 positions (kinds: random nodes, per-level linear, linear in x,y,z over a flat bottom). Non-trivial: land faces contribute, positions "
         "on edges/rim and depths outside the level range are present; distinct by world parameters.")
 MANDATORY = ["positions_compared", "land_face_contributes", "depth_above_top_level", "depth_below_bottom_level", "depth_on_level", "edge_tie_positions", "rim_positions",
-             "packed_storage", "packed_with_different_scale_factors", "subgrid_pairs_compared", "scalar_values_compared", "linear_levels_exact", "linear3d_exact", "convexity_checked", "vtransform2", "e2e_displacements_checked", "e2e_scalar_values_checked", "consecutive_update_values_compared", "second_file_with_other_packing", "later_frame_nonzero_on_land_faces_first_frame_zero"]
+             "packed_storage", "packed_with_different_scale_factors", "subgrid_pairs_compared", "scalar_values_compared", "linear_levels_exact", "linear3d_exact", "convexity_checked", "vtransform2", "e2e_displacements_checked", "e2e_scalar_values_checked", "consecutive_update_values_compared", "second_file_with_other_packing", "later_frame_nonzero_on_land_faces_first_frame_zero", "grid_file_with_mask_u_and_mask_v"]
 ASSUMPTIONS = ["add_offset of packed u/v is zero (the code documents that it ignores it)", "positions inside the valid region of every subgrid used"]
 TIMEOUT = {"quick": 900, "thorough": 3400}
 
@@ -209,6 +209,8 @@ def run_case(case: dict[str, Any], wd: Path) -> dict[str, Any]:
         sit_pack_differs = spec["pack"]["u"] != spec["pack"]["v"]
         # the second file is packed with other parameters than the first
         spec["pack_per_file"] = [dict(spec["pack"]), dict(u=2.0e-4, v=5.0e-5, temp=(0.002, 5.0), salt=(0.002, 17.0))]
+    if kind == "random" and case["idx"] % 3 != 1:
+        spec["staggered_masks"] = True  # the grid file also carries mask_u / mask_v, as files written by ROMS do
     land_zero_first = bool(kind == "random" and mask.get("p", 0.0) > 0 and case["idx"] % 2 == 0)
     if land_zero_first:
         spec["land_zero_frames"] = [0]  # first frame as the ocean model writes it (zero on land faces), the next one filled with values there
@@ -316,6 +318,7 @@ def run_case(case: dict[str, Any], wd: Path) -> dict[str, Any]:
         U2, V2, sc2 = second
         sit["consecutive_update_values_compared"] = n
         sit["second_file_with_other_packing"] = int(two_files)
+        sit["grid_file_with_mask_u_and_mask_v"] = int(bool(spec.get("staggered_masks")) and mask.get("p", 0.0) > 0)
         sit["later_frame_nonzero_on_land_faces_first_frame_zero"] = int(land_zero_first)
         d2 = max(float(np.max(np.abs(U2 - U0))), float(np.max(np.abs(V2 - V0))), float(np.max(np.abs(sc2["temp"] - sc0["temp"]))))
         if two_files:  # quantisation steps of the two files: u, v <= 2e-4, temp <= 2e-3
